@@ -63,6 +63,11 @@ class DepsCheck(Check):
     mc_thorough = [("Deps_MC", "Deps_MC_len4")]
     whys = None
 
+    @property
+    def constants(self):
+        # only the classes the check owns are judged: a disagreement of another class in the same event cannot hide them
+        return "CONSTANT Focus = {%s}\n" % ", ".join('"%s"' % w for w in sorted(self.whys or ()))
+
     def stateful(self):
         return True
 
